@@ -402,6 +402,48 @@ def r7_state_writers(m):
     return r
 
 
+WIPE_OWNERS = {("fparser.two.parser", "ParserFactory.create")}
+WIPE_INTERNAL = {"SymbolTables.__init__", "SymbolTables.clear"}
+
+
+def r12_wipe_owner(m):
+    """Who-may-call: the set of top-level symbol tables is wiped as a whole only when a parser is created."""
+    r = RuleResult("C09.R12", "the symbol-table registry is emptied as a whole (SYMBOL_TABLES.clear(), re-binding or clearing of "
+                              "SymbolTables._symbol_tables) only by ParserFactory.create: no parse, failed or not, wipes the tables of earlier parses")
+    r.floor = 3
+    tkey = "fparser.two.symbol_table:SymbolTables"
+    for (path, q), f in sorted(m.funcs.items()):
+        if not f.module.startswith("fparser."):
+            continue
+        inside = f.module == "fparser.two.symbol_table" and q.startswith("SymbolTables.")
+        for n in A.body_nodes(f.node):
+            what = None
+            if isinstance(n, ast.Call) and isinstance(n.func, ast.Attribute) and n.func.attr == "clear":
+                recv = n.func.value
+                if isinstance(recv, ast.Name) and recv.id not in ("self",):
+                    ent = m.resolve_name_in_func(f, recv.id)
+                    if ent and ent.get("type_key") == tkey:
+                        what = "%s.clear()" % recv.id
+                elif isinstance(recv, ast.Attribute) and recv.attr == "_symbol_tables":
+                    what = A.text(n)
+                elif inside and isinstance(recv, ast.Name) and recv.id == "self":
+                    what = "self.clear()"
+            elif isinstance(n, ast.Assign):
+                for t in n.targets:
+                    if isinstance(t, ast.Attribute) and t.attr == "_symbol_tables":
+                        what = A.text(n)[:50]
+            if what is None:
+                continue
+            r.instances += 1
+            ok = (f.module, q) in WIPE_OWNERS or (inside and q in WIPE_INTERNAL)
+            r.ob(ok, "%s.%s: %s" % (f.module, q, what))
+            if not ok:
+                r.fail("%s:%s|wipes-tables" % (f.module, q), "%s.%s empties the whole symbol-table registry (`%s`): the tables that earlier, "
+                       "successful parses left behind disappear although only a new parser (ParserFactory.create) may reset them"
+                       % (f.module, q, what), m.loc(f, n))
+    return r
+
+
 def r8_table_keys(m):
     r = RuleResult("C09.R8", "every access to the symbol-table dictionaries uses a lower-cased key (sibling agreement)")
     r.floor = 6
@@ -492,6 +534,8 @@ def run(m, tier):
         f_.rule = "C09.R9"
     results.append(r9)
     results.append(order_rules.remove_priority_rule(m, "C09.R10"))
+    results.append(order_rules.shared_state_rule(m, "C09.R11"))
+    results.append(r12_wipe_owner(m))
     expl = ("Decides the structural clauses of C09: (R1) scope typestate -- in the generic block engine, specialised for each "
             "of its call sites, and in every other function that enters a symbol-table scope, the scope is left on every normal "
             "and exceptional exit (exception edges from explicit-raise summaries over the resolved call graph, for the exception "
